@@ -189,7 +189,9 @@ func VerifC18TreeBuildWithFault(ctx context.Context, d Database, group string, s
 func VerifC18TreeTick(d Database) error { return d.(*database).repairScheduler.doBuildTree() }
 
 // VerifC18TreeForce rebuilds the trees unconditionally: repairScheduler.buildingTree(nil, "", true).
-func VerifC18TreeForce(d Database) error { return d.(*database).repairScheduler.buildingTree(nil, "", true) }
+func VerifC18TreeForce(d Database) error {
+	return d.(*database).repairScheduler.buildingTree(nil, "", true)
+}
 
 // VerifC18TreeState reads what the gossip protocol compares first, the root hash of the shard's tree file (through
 // repair.treeReader), a digest of the whole tree file, and repair.checkHasUpdates.
